@@ -1441,3 +1441,40 @@ class _ViewFuncs:
 
     def __len__(self):
         return len(self._names())
+
+
+def fold_break_guards(fn):
+    """`for (..; c; ..) { if (g) break; S }`  ==>  `for (..; c && !g; ..) { S }` (same for while), applied on the nested view:
+    a leading break guard is part of the loop condition."""
+    def rec(n):
+        if not isinstance(n, dict):
+            return n
+        out = {k: v for k, v in n.items() if k != "i"}
+        if "i" in n:
+            out["i"] = [rec(c) if c is not None else None for c in n["i"]]
+        k = out.get("k")
+        if k in ("ForStmt", "WhileStmt"):
+            kids = list(out["i"])
+            ci = 2 if k == "ForStmt" else 0
+            bi = len(kids) - 1
+            body = kids[bi]
+            changed = True
+            while changed and body is not None:
+                changed = False
+                st = _stmts(body)
+                # skip leading declarations without side effects? no: only a literal leading guard
+                if st and st[0].get("k") == "IfStmt":
+                    pre, g, then, els = _if_parts(st[0])
+                    ts = _stmts(then)
+                    if not pre and len(ts) == 1 and ts[0].get("k") == "BreakStmt" and cir.is_pure(g):
+                        rest = (_stmts(els) if els is not None else []) + st[1:]
+                        notg = {"k": "UnaryOperator", "op": "!", "line": g.get("line"), "t": "int", "i": [g]}
+                        cond = kids[ci]
+                        kids[ci] = notg if cond is None else {"k": "BinaryOperator", "op": "&&", "line": cond.get("line"), "t": "int",
+                                                               "i": [cond, notg]}
+                        body = _block(rest, body)
+                        kids[bi] = body
+                        changed = True
+            out["i"] = kids
+        return out
+    return rec(fn)
